@@ -241,6 +241,93 @@ let rec show_dval (d : dval) : string =
   | DMissing -> "missing"
   | DIgnored -> "ignored"
 
+(* ---------- spec values ---------- *)
+open Encoding
+let rec sx_evalue s : evalue =
+  let (h, a) = head s in
+  match h, a with
+  | "null", _ -> ENull
+  | "bool", [b] -> EBool (atom b <> "0")
+  | "int", [z] -> EInt (sx_z z)
+  | "long", [z] -> ELong (sx_z z)
+  | "float", [b] -> EFloat (sx_n b)
+  | "double", [b] -> EDouble (sx_n b)
+  | "bytes", [b] -> EBytes (sx_bytes b)
+  | "string", [b] -> EString (sx_bytes b)
+  | "array", blocks ->
+      EArray (L.map (fun blk -> match blk with
+                                | Ls (A "blk" :: neg :: items) -> (atom neg <> "0", L.map sx_evalue items)
+                                | _ -> failwith "bad block") blocks)
+  | "map", blocks ->
+      EMap (L.map (fun blk -> match blk with
+                              | Ls (A "blk" :: neg :: items) ->
+                                  (atom neg <> "0",
+                                   L.map (function Ls [k; v] -> (sx_bytes k, sx_evalue v) | _ -> failwith "bad entry") items)
+                              | _ -> failwith "bad block") blocks)
+  | "union", [i; v] -> EUnion (sx_nat i, sx_evalue v)
+  | "record", fs -> ERecord (L.map sx_evalue fs)
+  | "enum", [i] -> EEnum (sx_nat i)
+  | "fixed", [b] -> EFixed (sx_bytes b)
+  | "decimal", [m; pad] -> EDecimal (sx_z m, sx_nat pad)
+  | "bigdecimal", [m; sc; pad] -> EBigDecimal (sx_z m, sx_n sc, sx_nat pad)
+  | "duration", [x; y; z] -> EDuration (sx_n x, sx_n y, sx_n z)
+  | _ -> failwith ("unknown evalue " ^ h)
+
+let zs z = Z.to_string (zz z)
+let ns n = Z.to_string (zn n)
+let rec show_sval (v : sval) : string =
+  let many vs = String.concat "" (L.map (fun v -> " " ^ show_sval v) vs) in
+  let fields fs = String.concat "" (L.map (fun (k, v) -> " (" ^ hex k ^ " " ^ show_sval v ^ ")") fs) in
+  let optlen = function None -> "none" | Some l -> ns l in
+  match v with
+  | SBool b -> if b then "(bool 1)" else "(bool 0)"
+  | SInt (s, w, z) -> "(" ^ width_name s w ^ " " ^ zs z ^ ")"
+  | SF32 b -> "(f32 " ^ ns b ^ ")"
+  | SF64 (b, nr) -> "(f64 " ^ ns b ^ " " ^ ns nr ^ ")"
+  | SChar c -> "(char " ^ ns c ^ ")"
+  | SStr s -> "(str " ^ hex s ^ ")"
+  | SBytes s -> "(bytes " ^ hex s ^ ")"
+  | SNone -> "none"
+  | SSome v -> "(some " ^ show_sval v ^ ")"
+  | SUnit -> "unit"
+  | SUnitStruct n -> "(unit_struct " ^ hex n ^ ")"
+  | SUnitVariant (e, i, vn) -> "(unit_variant " ^ hex e ^ " " ^ ns i ^ " " ^ hex vn ^ ")"
+  | SNewtypeStruct (n, v) -> "(newtype_struct " ^ hex n ^ " " ^ show_sval v ^ ")"
+  | SNewtypeVariant (e, i, vn, v) -> "(newtype_variant " ^ hex e ^ " " ^ ns i ^ " " ^ hex vn ^ " " ^ show_sval v ^ ")"
+  | SSeq (len, vs) -> "(seq " ^ optlen len ^ many vs ^ ")"
+  | STuple vs -> "(tuple" ^ many vs ^ ")"
+  | STupleStruct (n, vs) -> "(tuple_struct " ^ hex n ^ many vs ^ ")"
+  | STupleVariant (e, i, vn, vs) -> "(tuple_variant " ^ hex e ^ " " ^ ns i ^ " " ^ hex vn ^ many vs ^ ")"
+  | SMap (len, calls) ->
+      "(map " ^ optlen len ^
+      String.concat "" (L.map (fun c -> match c with
+                                        | (Some k, Some v) -> " (entry " ^ show_sval k ^ " " ^ show_sval v ^ ")"
+                                        | (Some k, None) -> " (key " ^ show_sval k ^ ")"
+                                        | (None, Some v) -> " (value " ^ show_sval v ^ ")"
+                                        | (None, None) -> "") calls) ^ ")"
+  | SStruct (n, len, fs) -> "(struct " ^ hex n ^ " " ^ ns len ^ fields fs ^ ")"
+  | SStructVariant (e, i, vn, len, fs) ->
+      "(struct_variant " ^ hex e ^ " " ^ ns i ^ " " ^ hex vn ^ " " ^ ns len ^ fields fs ^ ")"
+  | SFail -> "fail"
+
+(* spec SCHEMA EVALUE -> (ok xENCODING xCANONICAL conforms layout_ok DVAL_ANY SVAL_PRESENT) *)
+let cmd_spec (a : sx list) : string =
+  match a with
+  | [sch; ev] ->
+      (match frozen sch with
+       | Ok fs ->
+           (match Schema.fnode_at fs Datatypes.O with
+            | None -> "(bad-schema)"
+            | Some root ->
+                let e = sx_evalue ev in
+                let v = erase e in
+                let b x = if x then "1" else "0" in
+                "(ok " ^ hex (encode_e fs root e) ^ " " ^ hex (spec_encode fs root v) ^ " "
+                ^ b (AvroValue.conforms fs root v) ^ " " ^ b (layout_ok e) ^ " "
+                ^ show_dval (Denote.dval_any fs root v) ^ " " ^ show_sval (Denote.present fs root v) ^ ")")
+       | _ -> "(bad-schema)")
+  | _ -> failwith "spec: arguments"
+
 let cmd_de (a : sx list) : string =
   match a with
   | sch :: tgt :: data :: mode :: rest ->
@@ -285,6 +372,7 @@ let run_case (line : string) : string =
          | "rabin" -> cmd_rabin args
          | "fp" -> cmd_fp args
          | "de" -> cmd_de args
+         | "spec" -> cmd_spec args
          | _ -> failwith ("unknown command " ^ cmd))
     | _ -> "(bad-case)"
   with
